@@ -1,14 +1,19 @@
 INIT Init
 NEXT Next
 CONSTANT Mode = "dag"
-CONSTANT NPairs = 3
-CONSTANT MaxOps = 3
+CONSTANT NPairs = 5
+CONSTANT MaxOps = 6
 CONSTANT Full = TRUE
+CONSTANT EmitOneIn = 1
+CONSTANT Kinds = {"visit", "cached"}
 INVARIANT TableOK
-INVARIANT LastResultCorrect
 INVARIANT SlotsCorrect
 INVARIANT CacheShape
 INVARIANT RefAgreesOnAlloc
+INVARIANT AtomFastPathSound
+INVARIANT LastResultCorrect
 INVARIANT Emit
+PROPERTY ResultStep
+PROPERTY EmitStep
 PROPERTY MemoStable
 CHECK_DEADLOCK FALSE
